@@ -1635,3 +1635,24 @@ def chain_lines(h):
         out.append("chain %s/chain %s" % (h.id, ";".join(script)))
     return out
 
+
+def budget_lines(h):
+    """heavy worlds (conn family): the byte lengths of the snapshot's messages as the host encodes them, against the reliable
+    channel's budget on the model (`Slice/Budget.lean`); compared: is the joiner served or refused"""
+    hw = next((e for e in h.events if e["ev"] == "heavy_world" and e.get("msg_sizes")), None)
+    if hw is None:
+        return []
+    st = None
+    for e in h.events:
+        if e["ev"] == "frame" and e["peer"] == 1 and e.get("state") is not None:
+            st = e["state"]
+    if st is None:
+        return []
+    if st["sync_finished"] >= 1 and st.get("ents"):
+        refused = 0
+    elif st["sync_finished"] == 0 and st.get("client_connected") is False and not st.get("ents"):
+        refused = 1
+    else:
+        return []          # neither served nor refused: the oracle's business
+    return ["budget %s/budget %d 0 %s %d" % (h.id, 5 * 1024 * 1024, ".".join(str(x) for x in hw["msg_sizes"]), refused)]
+
